@@ -11,6 +11,7 @@ def fails(obs, case):
 
 WALKER = dict(bin="walker", driver_cmd=["python3", "lib/null_driver.py"], case_seconds=20)
 CSTR = dict(bin="cstrfmt", driver="cstrfmt_driver", model_ml="cstrfmt_model", extract=["CStrFmt"], case_seconds=3)
+UTIL = dict(bin="util", driver="util_driver", model_ml="util_model", extract=["Util"], case_seconds=20)
 
 CONFIG = dict(
 
@@ -18,6 +19,7 @@ CONFIG = dict(
     note="Partial by nature: wall-clock time and stack bytes are not modelled; the models bound steps and recursion depth. Trusted: Coq kernel, extraction and glue, process isolation and the alarm()-based budget of the harness.",
     extract=["CStrFmt"],
     components=[
+        dict(name="util", cfg=UTIL, quick_cases=1500, thorough_cases=100000),
         dict(name="cstrfmt", cfg=CSTR, quick_cases=1500, thorough_cases=200000),
         dict(prop="C14", quick_cases=1200, thorough_cases=100000),
         dict(prop="C20", quick_cases=1200, thorough_cases=100000),
